@@ -235,7 +235,8 @@ def soup(rng, maxlen=60):
 # ---------------------------------------------------------------- (d) layouts
 
 WS_PIECES = [' ', ' ', ' ', '  ', '\n', '\n', '\n  ', '\n\t', '\t', '\n\n', ' \n', '\r\n', '    ', '\n    ', '\x0c']
-COMMENT_PIECES = ['// c\n', '/// d\n', '/* b */', '// é x\n', '/**/', '//\n', '/* * / */']
+COMMENT_PIECES = ['// c\n', '/// d\n', '/* b */', '// é x\n', '/**/', '//\n', '/* * / */',
+                  '/* one\n   two */', '/*\n * x\n */', '/* a\n\tb\n      c */']
 
 
 def _wordish(c):
